@@ -942,10 +942,14 @@ class Buffer(Iterable):
             return
         self._stopped.set()
         tasks = self._tasks
-        while not tasks.empty():
-            _ = tasks.get()
-        # `tasks` is now empty. The thread needs to put at most one
-        # more element into the queue, which is safe.
+        while self._worker.is_alive():
+            # Keep draining until the worker has exited: after seeing the flag it may still
+            # put the element in flight plus its end markers (up to three entries), and it
+            # must not block on a full queue (e.g. `maxsize=1`) while we wait to join it.
+            try:
+                _ = tasks.get(timeout=0.01)
+            except queue.Empty:
+                pass
         self._worker.join()
         self._stopped = None
 
